@@ -11,6 +11,7 @@ require (
 require (
 	github.com/buger/jsonparser v0.0.0-20180808090653-f4dd9f5a6b44 // indirect
 	github.com/denisbrodbeck/machineid v1.0.1 // indirect
+	github.com/mitchellh/go-homedir v1.1.0 // indirect
 	golang.org/x/crypto v0.0.0-20210415154028-4f45737414dc // indirect
 	golang.org/x/mod v0.22.0 // indirect
 	golang.org/x/sync v0.10.0 // indirect
